@@ -42,6 +42,13 @@ import (
 	treasurytypes "github.com/palomachain/paloma/v2/x/treasury/types"
 	valsetkeeper "github.com/palomachain/paloma/v2/x/valset/keeper"
 	valsettypes "github.com/palomachain/paloma/v2/x/valset/types"
+	bankkeeper "github.com/cosmos/cosmos-sdk/x/bank/keeper"
+	xchain "github.com/palomachain/paloma/v2/internal/x-chain"
+	palomatypes "github.com/palomachain/paloma/v2/x/paloma/types"
+	schedkeeper "github.com/palomachain/paloma/v2/x/scheduler/keeper"
+	schedtypes "github.com/palomachain/paloma/v2/x/scheduler/types"
+	tfkeeper "github.com/palomachain/paloma/v2/x/tokenfactory/keeper"
+	tftypes "github.com/palomachain/paloma/v2/x/tokenfactory/types"
 	protov2 "google.golang.org/protobuf/proto"
 )
 
@@ -93,6 +100,17 @@ func (noBank) SendCoinsFromAccountToModule(ctx context.Context, a sdk.AccAddress
 func (noBank) BlockedAddr(addr sdk.AccAddress) bool { return false }
 
 type env struct {
+	jobIDs   map[string]bool // what the honest pre-steps created (the harness's own bookkeeping)
+	denoms   map[string]bool
+	minted   map[string]bool
+	licensed map[int]bool
+	two      bool // second environment (tokenfactory, paloma)
+	tf       tftypes.MsgServer
+	tfK      tfkeeper.Keeper
+	paloma   palomatypes.MsgServer
+	bank     bankkeeper.BaseKeeper
+	sched    schedtypes.MsgServer
+	schedK   *schedkeeper.Keeper
 	in       keeper.TestInput
 	ctx      sdk.Context
 	keys     map[string]storetypes.StoreKey
@@ -113,7 +131,7 @@ var fgEnc = moduletestutil.MakeTestEncodingConfig(feegrantmodule.AppModuleBasic{
 
 func setup(t *testing.T) *env {
 	in, c := keeper.SetupFiveValChain(t)
-	e := &env{in: in}
+	e := &env{in: in, jobIDs: map[string]bool{}, denoms: map[string]bool{}, minted: map[string]bool{}, licensed: map[int]bool{}}
 	e.ctx = sdk.UnwrapSDKContext(c).WithLogger(log.NewNopLogger())
 	ks, ok := e.ctx.MultiStore().(interface {
 		StoreKeysByName() map[string]storetypes.StoreKey
@@ -128,6 +146,15 @@ func setup(t *testing.T) *env {
 	e.treasury = treasurykeeper.NewMsgServerImpl(*in.TreasuryKeeper)
 	e.valset = valsetkeeper.NewMsgServerImpl(in.ValsetKeeper)
 	e.evm = evmkeeper.NewMsgServerImpl(in.EvmKeeper)
+	// the REAL scheduler keeper over the real account keeper and the real evm keeper as its bridge;
+	// its jobs live in a store of this multistore that nothing else writes to (x/upgrade's)
+	spare, ok := e.keys["upgrade"].(*storetypes.KVStoreKey)
+	if !ok {
+		t.Fatalf("no spare store for the scheduler")
+	}
+	evmK := in.EvmKeeper
+	e.schedK = schedkeeper.NewKeeper(in.Marshaler, runtime.NewKVStoreService(spare), in.AccountKeeper, evmK, []xchain.Bridge{evmK})
+	e.sched = schedkeeper.NewMsgServerImpl(e.schedK)
 
 	for i := 0; i < nVals; i++ {
 		e.actors = append(e.actors, keeper.AccAddrs[i])
@@ -242,6 +269,11 @@ func (e *env) scan(ctx sdk.Context) map[int]string {
 // governance-held settings of the modules in this environment
 func (e *env) govDigest(ctx sdk.Context) string {
 	var parts []string
+	if e.two {
+		bz, _ := json.Marshal(e.tfK.GetParams(ctx))
+		h := sha256.Sum256(bz)
+		return hex.EncodeToString(h[:8])
+	}
 	add := func(name string, v any, err error) {
 		bz, _ := json.Marshal(v)
 		parts = append(parts, fmt.Sprintf("%s=%s/%v", name, bz, err))
